@@ -146,6 +146,62 @@ def verdicts (s : Sit) : List Step → List Verdict
     | some false => verdicts s rest
     | none => outcomeVerdict o :: verdicts s rest
 
+/-! ### correlated enumeration (round 6)
+
+`verdicts` treats every unknown guard independently, so a list like
+`[A ∧ B → return werr, A ∧ ¬B → return err, ¬A → return err]` (an `if A { if B {…}; return }; return`
+shape, fix 2c2062a in `convertedValueReader.ReadValues`) gets a spurious "no step taken" way. The
+conditions about other things are evaluated once on a path, so the same text has the same truth value
+in every guard of the list: `verdictsC` enumerates the assignments of the unknown atoms and takes the
+first matching step under each. -/
+
+def isOp (t : String) : Bool := t = "and" || t = "or" || t = "not"
+
+/-- the conditions about something else that occur in the list -/
+def unknownAtoms (s : Sit) (steps : List Step) : List String :=
+  (steps.flatMap (fun st => st.1.filter (fun t => !isOp t && (atom s t).isNone))).eraseDups
+
+def atomA (s : Sit) (asg : List (String × Bool)) (t : String) : Option Bool :=
+  match atom s t with
+  | some b => some b
+  | none => asg.lookup t
+
+def evalRPNA (s : Sit) (asg : List (String × Bool)) : List String → List (Option Bool) → Option (Option Bool)
+  | [], [v] => some v
+  | [], _ => none
+  | t :: rest, st =>
+    if t = "and" then
+      match st with
+      | b :: a :: st' => evalRPNA s asg rest (kand a b :: st')
+      | _ => none
+    else if t = "or" then
+      match st with
+      | b :: a :: st' => evalRPNA s asg rest (kor a b :: st')
+      | _ => none
+    else if t = "not" then
+      match st with
+      | a :: st' => evalRPNA s asg rest (knot a :: st')
+      | _ => none
+    else evalRPNA s asg rest (atomA s asg t :: st)
+
+/-- the first step whose guard holds under the assignment decides -/
+def verdictA (s : Sit) (asg : List (String × Bool)) : List Step → Verdict
+  | [] => .swallows
+  | (g, o) :: rest =>
+    if o = "store" then verdictA s asg rest else
+    match (evalRPNA s asg g []).join with
+    | some true => outcomeVerdict o
+    | some false => verdictA s asg rest
+    | none => .unresolved
+
+def assignments : List String → List (List (String × Bool))
+  | [] => [[]]
+  | a :: rest => (assignments rest).flatMap (fun asg => [(a, true) :: asg, (a, false) :: asg])
+
+/-- every way the list can go, one per truth assignment of the conditions about other things -/
+def verdictsC (s : Sit) (steps : List Step) : List Verdict :=
+  ((assignments (unknownAtoms s steps)).map (fun asg => verdictA s asg steps)).eraseDups
+
 /-- `verdict` is one of the `verdicts` unless it is unresolved, in which case `verdicts` went on -/
 theorem verdict_mem_verdicts (s : Sit) : ∀ (steps : List Step), verdict s steps ≠ .unresolved →
     verdict s steps ∈ verdicts s steps
